@@ -348,7 +348,22 @@ func oracleC12(res *Result, c *Case) {
 	if c.Err == nil {
 		return
 	}
-	for _, st := range stages(c.Err, false) {
+	sts := stages(c.Err, false)
+	if len(sts) > 0 {
+		// the error observed a second time, after every report and hop above has been computed on it:
+		// building a report must not consume what it reports (an observer that edits a shared slice
+		// in place loses the information for every later observation and every later hop)
+		again := sts[0]
+		again.Name = sts[0].Name + "-again"
+		sts = append(sts, again)
+		if h, ok := hopsReal(c.Err, 1); ok && h != nil {
+			sts = append(sts, struct {
+				Name string
+				E    error
+			}{"hop1-after-reporting", h})
+		}
+	}
+	for _, st := range sts {
 		var all strings.Builder
 		ok, _ := catch(func() {
 			for _, o := range reportStrings(st.E) {
@@ -369,7 +384,7 @@ func oracleC12(res *Result, c *Case) {
 		res.OracleEvals["C12."+st.Name]++
 		text := all.String()
 		for _, t := range c.Toks {
-			if t.Class != 'S' || (t.LocalOnly && st.Name != "local") {
+			if t.Class != 'S' || (t.LocalOnly && st.Name != "local" && st.Name != "local-again") {
 				continue
 			}
 			res.OracleEvals["C12.token_checks"]++
